@@ -131,8 +131,9 @@ def run(ctx):
               % (probs[0][0].describe()[:200] if probs else ''))
 
     # the liveness test create_object relies on ("client ids are reused only after their delete_id") is the destroy flag
-    from .c03 import check_alive_flag
+    from .c03 import check_alive_flag, check_delete_id
     check_alive_flag(ctx, 'C02.1')
+    check_delete_id(ctx, 'C02.3', 'C02.3')
     # ---- C02.2 index = generation ---------------------------------------------------------------
     n_app = 0
     for p in cpaths:
